@@ -80,29 +80,43 @@ Definition src_stream (tr : tkey -> bool) (r : Z) (lbl : Z) (s : src) (e : env)
          (fst res), snd res)
   end.
 
+(* One trip through the body of a `for` statement: the Metrics calls made by the generator(s)
+   before the element is handed to the loop (it_pre), the "iter" row of the for-statement's own
+   iterRange, the events of the body, iterRange's incIter, and what the generator does when it
+   is resumed (it_post).  it_env / it_zin: what the body was given. *)
+Record item := {
+  it_pre : list mev; it_c : Z; it_j : Z; it_env : env; it_zin : option tree;
+  it_body : list mev; it_post : list mev }.
+
+Definition flat_item (r : Z) (it : item) : list mev :=
+  it_pre it ++ [EUse r (it_c it) (it_j it) K_ITER 0] ++ it_body it ++ [EInc r] ++ it_post it.
+Definition flat_items (r : Z) (items : list item) : list mev := flat_map (flat_item r) items.
+
 (* ------------------------------------------- for c, p in <eager fiber>  (iterRange:122-188)
    j counts all stored elements; empty ones are skipped without a row *)
-Fixpoint iter_plain (r : Z) (x : nat) (e : env) (body : body_t) (es : fib) (j : Z)
-  (z : option tree) : list mev * option tree :=
+Fixpoint iter_plain (x : nat) (e : env) (body : body_t) (es : fib) (j : Z)
+  (z : option tree) : list item * option tree :=
   match es with
   | [] => ([], z)
   | (c, t) :: es' =>
-    if is_empty 0 t then iter_plain r x e body es' (j + 1) z
+    if is_empty 0 t then iter_plain x e body es' (j + 1) z
     else
       let b := body c (set_nth x t e) z in
-      let rest := iter_plain r x e body es' (j + 1) (snd b) in
-      ([EUse r c j K_ITER 0] ++ fst b ++ [EInc r] ++ fst rest, snd rest)
+      let rest := iter_plain x e body es' (j + 1) (snd b) in
+      ({| it_pre := []; it_c := c; it_j := j; it_env := set_nth x t e; it_zin := z;
+          it_body := fst b; it_post := [] |} :: fst rest, snd rest)
   end.
 
 (* ------------------------------------------- for c, p in <lazy fiber>  (iterRange, isLazy) *)
-Fixpoint iter_lazy (r : Z) (body : body_t) (els : list (list mev * (Z * env))) (j : Z)
-  (z : option tree) : list mev * option tree :=
+Fixpoint iter_lazy (body : body_t) (els : list (list mev * (Z * env))) (j : Z)
+  (z : option tree) : list item * option tree :=
   match els with
   | [] => ([], z)
   | (pre, (c, e')) :: els' =>
     let b := body c e' z in
-    let rest := iter_lazy r body els' (j + 1) (snd b) in
-    (pre ++ [EUse r c j K_ITER 0] ++ fst b ++ [EInc r] ++ fst rest, snd rest)
+    let rest := iter_lazy body els' (j + 1) (snd b) in
+    ({| it_pre := pre; it_c := c; it_j := j; it_env := e'; it_zin := z;
+        it_body := fst b; it_post := [] |} :: fst rest, snd rest)
   end.
 
 (* ------------------------------------------- z << b   (iterators.py:1095-1283) *)
@@ -224,10 +238,9 @@ Definition pop_post (r la : Z) (wt : bool) (insert_pos : Z) (c : Z) (new : bool)
     ([], {| p_z := zes; p_apos := apos + 1; p_ins := p_ins st; p_oldend := p_oldend st;
             p_toins := p_toins st; p_isp := p_isp st |}).
 
-(* the populate generator wrapped by the lazy iterRange of the `for` statement:
-   carry = events the generator emits when it is resumed after the previous body *)
+(* the populate generator wrapped by the lazy iterRange of the `for` statement *)
 Fixpoint pop_loop (r la lb : Z) (rt wt bt zleaf : bool) (insert_pos : Z) (body : body_t)
-  (els : list (list mev * (Z * env))) (j : Z) (st : pst) : list mev * pst :=
+  (els : list (list mev * (Z * env))) (j : Z) (st : pst) : list item * pst :=
   match els with
   | [] => ([], st)
   | (pre, (c, e')) :: els' =>
@@ -236,7 +249,8 @@ Fixpoint pop_loop (r la lb : Z) (rt wt bt zleaf : bool) (insert_pos : Z) (body :
     let zref' := match snd b with Some t => t | None => zref end in
     let post := pop_post r la wt insert_pos c new zref' st1 in
     let rest := pop_loop r la lb rt wt bt zleaf insert_pos body els' (j + 1) (snd post) in
-    (pre ++ ev ++ [EUse r c j K_ITER 0] ++ fst b ++ [EInc r] ++ fst post ++ fst rest, snd rest)
+    ({| it_pre := pre ++ ev; it_c := c; it_j := j; it_env := e'; it_zin := Some zref;
+        it_body := fst b; it_post := fst post |} :: fst rest, snd rest)
   end.
 
 Definition pop_final (r la : Z) (rt wt : bool) (insert_pos : Z) (st : pst) : list mev :=
@@ -258,19 +272,19 @@ Definition run_level (tr : tkey -> bool) (zshape : list Z) (nz : nat) (i : nat) 
       let res := pop_loop r 0 1 rt wt bt (Nat.eqb (S i) nz) ip body (fst s) 0
                    {| p_z := zes; p_apos := 0; p_ins := false; p_oldend := 0; p_toins := [];
                       p_isp := 0 |} in
-      ([EReg r] ++ fst res ++ snd s ++ pop_final r 0 rt wt ip (snd res) ++ [EEnd r],
+      ([EReg r] ++ flat_items r (fst res) ++ (snd s ++ pop_final r 0 rt wt ip (snd res)) ++ [EEnd r],
        Some (Node (p_z (snd res))))
     | _ => ([], z)
     end
   else
     match l_src L with
     | SFib x =>
-      let res := iter_plain r x e body (sub e x) 0 z in
-      ([EReg r] ++ fst res ++ [EEnd r], snd res)
+      let res := iter_plain x e body (sub e x) 0 z in
+      ([EReg r] ++ flat_items r (fst res) ++ [] ++ [EEnd r], snd res)
     | SAnd _ _ =>
       let s := src_stream tr r 0 (l_src L) e in
-      let res := iter_lazy r body (fst s) 0 z in
-      ([EReg r] ++ fst res ++ snd s ++ [EEnd r], snd res)
+      let res := iter_lazy body (fst s) 0 z in
+      ([EReg r] ++ flat_items r (fst res) ++ snd s ++ [EEnd r], snd res)
     end.
 
 (* innermost body: `if not skip(point): z_ref += 1` *)
